@@ -152,6 +152,11 @@ PATTERN_SETS = [
     (P + "r/test",),
     (P + "r/a", P + "r/c(1)/k"),
     (P + "r/ab.py", "r"),
+    # tuples in which one pattern's text occurs inside another pattern: each pattern still counts on its own
+    ("test*", "*test"),
+    ("*mytest.py", "my*", "*k2.py"),
+    ("a*", "*a*"),
+    (P + "r/c*", "*c(1)/k.py"),
 ]
 
 
@@ -168,6 +173,8 @@ REGEX_SETS = [
     (r".*/ab\.py$|.*/k\.py$",),
     (r".*/k\.py$", r"(?i).*/AB\.PY$"),
     (r".*/c\((\d)\)/k\1?\.py$", r".*/([a-z])\1b\.py$", r".*\$y\.py$"),
+    (r"test.*", r".*test$"),
+    (r".*/a.*", r".*/aab\.py$", r".*/c\(1\)$"),
 ]
 
 
@@ -330,9 +337,9 @@ def instances(tier: str) -> list[dict]:
     for mp in ("r", "r/a", "r/a/x"):
         out.append({"part": "walk", "mp": mp, "cap": CAPS[tier]})
     for ps in PATTERN_SETS:
-        out.append({"part": "e2e", "patterns": list(ps), "cap": CAPS[tier]})
+        out.append({"part": "e2e", "patterns": list(ps), "cap": CAPS[tier], "tier": tier})
     for ps in REGEX_SETS:
-        out.append({"part": "e2e-regex", "patterns": list(ps), "cap": CAPS[tier]})
+        out.append({"part": "e2e-regex", "patterns": list(ps), "cap": CAPS[tier], "tier": tier})
     return out
 
 
@@ -367,15 +374,15 @@ def work(inst: dict) -> dict:
 
         keys = model.all_keys() + [(("ex", p), 2) for p in WALK_CANDS]
         return check_no_mismatch(label_of(inst), fn, inst["cap"], make_payload, replay_detail, all_keys=keys, sample={"candidate_paths": sorted(WALK_CANDS)})
-    model = FSModel(E2E_CANDS, E2E_LINES)
     patterns = tuple(inst["patterns"])
+    model = FSModel(E2E_CANDS, E2E_LINES, fixed=e2e_fixed(patterns, inst.get("tier", "thorough")))
     if inst["part"] == "e2e-regex":
 
         def fn3():
             return e2e_regex_outcome(patterns, model)
 
         def make_payload3(assign):
-            return {"kind": "e2e-regex", "patterns": list(patterns), "assign": [[list(k), v] for k, v in sorted(assign.items(), key=str)]}
+            return {"kind": "e2e-regex", "patterns": list(patterns), "fixed": model.fixed, "assign": [[list(k), v] for k, v in sorted(assign.items(), key=str)]}
 
         return check_no_mismatch(label_of(inst), fn3, inst["cap"], make_payload3, replay_detail, all_keys=model.all_keys(), sample={"candidate_paths": sorted(E2E_CANDS), "regex_exclusions": list(patterns)})
 
@@ -383,9 +390,28 @@ def work(inst: dict) -> dict:
         return e2e_outcome(patterns, model)
 
     def make_payload2(assign):
-        return {"kind": "e2e", "patterns": list(patterns), "assign": [[list(k), v] for k, v in sorted(assign.items(), key=str)]}
+        return {"kind": "e2e", "patterns": list(patterns), "fixed": model.fixed, "assign": [[list(k), v] for k, v in sorted(assign.items(), key=str)]}
 
     return check_no_mismatch(label_of(inst), fn2, inst["cap"], make_payload2, replay_detail, all_keys=model.all_keys(), sample={"candidate_paths": sorted(E2E_CANDS), "patterns": list(patterns)})
+
+
+def e2e_fixed(patterns, tier: str) -> dict:
+    """Quick tier: a candidate FILE without import lines whose name shares no two-character fragment with any
+    pattern is always present (it must still survive every pattern) instead of carrying an existence bit."""
+    if tier != "quick":
+        return {}
+    frags = set()
+    for p in patterns:
+        core = p.replace(P, "").replace("\\", "")
+        frags |= {core[i : i + 2] for i in range(len(core) - 1)}
+    fixed = {}
+    for c, kind in E2E_CANDS.items():
+        if kind != "file" or c in E2E_LINES:
+            continue
+        name = c[2:]
+        if not any(name[i : i + 2] in frags for i in range(len(name) - 1)):
+            fixed[c] = True
+    return fixed
 
 
 class _ConcreteFilter:
@@ -430,7 +456,7 @@ def replay_detail(payload: dict):
             visit(payload["mp"])
             ok = sorted(mods) == sorted(want) and sorted(m.name for m in asts) == sorted(w for w in want if (w.replace(".", "/") + ".py") in ex)
             return ok, f"tree {sorted(ex)}, excluded paths {sorted(excluded)}, module_path {payload['mp']}: Parser.parse gives modules {sorted(mods)}, expected {sorted(want)}", {"modules": sorted(mods)}
-        model = FSModel(E2E_CANDS, E2E_LINES)
+        model = FSModel(E2E_CANDS, E2E_LINES, fixed=payload.get("fixed", {}))
         model.materialise(assign, d)
         ex, _ = model.concrete(assign)
         patterns = tuple(p.replace("/symfs/", d + "/") for p in payload["patterns"])
